@@ -447,6 +447,7 @@ func RunAll(t *testing.T) {
 		}
 		ps := ps
 		t.Run(ps.name, func(t *testing.T) {
+			setT(t)
 			start := time.Now()
 			defer func() {
 				ps.wall += time.Since(start).Seconds()
@@ -502,6 +503,7 @@ func Replay(t *testing.T) {
 		if ps.name != rf.Check {
 			continue
 		}
+		setT(t)
 		r := ps.replay(rf.Case)
 		for sig := range r.known {
 			fmt.Printf("REPLAY-KNOWN sig=%s\n", sig)
